@@ -131,6 +131,18 @@ CLAIMED["C13"] = ("model_checking",
     "TLA+ abstract sequence spec + TLC closed graph; transitions replayed into the real containers; observers validated by TLC",
     "Seq", "5 C13")
 
+CLAIMED["C14"] = ("model_checking",
+    "HashMap.tla is the abstract key->value association (insert of an absent key, operator[] with default insertion "
+    "exactly once and assignment through the reference, get, find, remove returning the stored value). TLC explores "
+    "the closed graph over 11 keys (sizes crossing the first rehash threshold with every key as the one added at the "
+    "threshold; emptied and refilled maps); transitions are replayed on the real hash_map under 6 hash functions "
+    "(identity, constant, mod 3, x16, x20 colliding modulo the first two capacities, multiplicative) with int and "
+    "Tracked values; after each call get() and find() of every key, size(), empty() and the iterated entries are "
+    "validated. Random histories over 48/200/1000 keys cross the later thresholds.",
+    "bounds: 11 keys exhaustively (<=1 default-valued entry at a time), later thresholds sampled; 6 hash functions",
+    "TLA+ abstract map spec + TLC closed graph; transitions replayed into the real hash_map under several hash functions; all lookups validated by TLC",
+    "Hash", "5 C14")
+
 NOT_YET = "check not built yet in this round (see DESIGN.md build order); not claimed until its TLA+ spec and conformance harness exist"
 
 checks, na = [], []
